@@ -445,3 +445,77 @@ func init() {
 		},
 	}
 }
+
+func init() {
+	props["C13"] = &PropSpec{
+		ID: "C13",
+		Jobs: func(tier string) []*Job {
+			var js []*Job
+			add := func(g, r, d int) {
+				js = append(js, &Job{Harness: "C13Chain", Params: map[string]int{"g": g, "r": r, "defaults": d}})
+			}
+			for g := 0; g <= 2; g++ {
+				for r := 0; r <= 2; r++ {
+					add(g, r, 0)
+				}
+			}
+			add(3, 1, 0)
+			add(1, 1, 1)
+			add(2, 0, 1)
+			if tier == "thorough" {
+				add(3, 2, 0)
+				add(3, 0, 1)
+				add(4, 0, 0)
+			}
+			js = append(js, threadJobs("C13")...)
+			return js
+		},
+		Bounds: func(tier string) string {
+			g := 3
+			if tier == "thorough" {
+				g = 4
+			}
+			return fmt.Sprintf("up to %d global middleware, each registered through WithMiddleware or WithMiddlewareFor with a solver-chosen 8-bit scope mask (all 256 values), optionally together with DefaultOptions; up to 2 route middleware; all five handler kinds per configuration; Route.Handle / Route.HandleMiddleware; Update; a second route with other middleware; concurrent NewRoute (see threads)", g)
+		},
+		RequiredCovers: []string{"chains compared", "three or more global middleware"},
+		Assumptions: []string{
+			"the console slog handler of DefaultOptions is a stub (its output is not modelled); Recovery and Logger themselves are executed",
+		},
+	}
+	props["C19"] = &PropSpec{
+		ID: "C19",
+		Jobs: func(tier string) []*Job {
+			var js []*Job
+			add := func(g, r int) {
+				js = append(js, &Job{Harness: "C19Options", Params: map[string]int{"g": g, "r": r}})
+			}
+			add(0, 1)
+			add(1, 1)
+			add(2, 1)
+			add(1, 2)
+			add(2, 2)
+			add(3, 1)
+			if tier == "thorough" {
+				add(3, 2)
+				add(1, 3)
+				add(0, 4)
+			}
+			for k := 0; k < 5; k++ {
+				js = append(js, &Job{Harness: "C19ClientIP", Params: map[string]int{"kind": k}})
+			}
+			return js
+		},
+		Bounds: func(tier string) string {
+			b := "g<=3 global options and r<=2 route options"
+			if tier == "thorough" {
+				b = "g<=3 global options and r<=4 route options (g+r<=5)"
+			}
+			return "every sequence of " + b + " among ignore-trailing-slash(bool), redirect-trailing-slash(bool), client-IP resolver (A, B, nil), middleware (nil or not), annotation (13-key catalogue: ints, strings, structs, pointers, named types, slices, maps, funcs, comparable structs/arrays holding unhashable dynamic values, nil), booleans solver-chosen; creation through NewRoute, Handle and Update; nil handlers through every creation path; Context.ClientIP in the five handler kinds x router resolver present/absent x route resolver inherited/own/none. Accessor consistency for symbolic patterns is decided by C10."
+		},
+		RequiredCovers: []string{"route options compared", "invalid route option rejected", "invalid global option rejected", "nil annotation key did not panic", "ClientIP in a route handler", "ClientIP in a non-route handler"},
+		Assumptions:    []string{"maps with `any` keys follow the runtime's hashing rules in the executor (hash of unhashable type panics)", "acceptance of a nil annotation key is not specified (only that it must not panic)"},
+	}
+}
+
+// threadJobs is filled in by the thread layer (empty when a property has no concurrent harness).
+func threadJobs(prop string) []*Job { return nil }
